@@ -187,6 +187,24 @@ def run(ctx):
     ctx.check("R5", gp, M.has(gp.node, "if self._verify($$p, fetchable) is None:\n    return $$p"), "get_path-verified", "get_path returns a path only after _verify")
     ctx.floor("R5", 8)
 
+    # ---- R6 "missing" is the size handler's sentinel, never a legitimate size ------------------------------------------
+    import operator
+    vfy = P.func("pkgcore.fetch.base", "fetcher._verify")
+    OPS6 = {ast.Eq: operator.eq, ast.NotEq: operator.ne, ast.Lt: operator.lt, ast.LtE: operator.le, ast.Gt: operator.gt, ast.GtE: operator.ge}
+    miss = [n for n in A.body_walk(vfy.node) if isinstance(n, ast.If) and isinstance(n.test, ast.Compare) and len(n.test.ops) == 1 and type(n.test.ops[0]) in OPS6
+            and isinstance(n.test.left, ast.Name) and isinstance(A.try_literal(n.test.comparators[0]), int)
+            and any(isinstance(r_, ast.Raise) and "MissingDistfile" in A.unparse(r_) for b_ in n.body for r_ in ast.walk(b_))]
+    ctx.check("R6", vfy, bool(miss), "missing-sentinel-test-present", "_verify reports a missing file from the size handler's result")
+    for n in miss:
+        f_ = OPS6[type(n.test.ops[0])]
+        k_ = A.try_literal(n.test.comparators[0])
+        legit = [v for v in (0, 1, 7, 10 ** 9) if f_(v, k_)]
+        ctx.check("R6", vfy, f_(-1, k_) and not legit, f"missing-only-on-sentinel:{A.unparse(n.test)}",
+                  "only the handler's -1 (no such file) is reported as missing; every real size, 0 included, goes on to the size comparison",
+                  f"_verify raises MissingDistfile on `{A.unparse(n.test)}`, which also holds for the real size(s) {legit}: a file of that size that IS the expected "
+                  f"distfile (an empty one) is never accepted, all attempts are used up and the fetch fails", node=n)
+    ctx.floor("R6", 2)
+
 
 FC = "src/pkgcore/fetch/custom.py"
 FB = "src/pkgcore/fetch/base.py"
